@@ -48,12 +48,14 @@ pub fn iv_hits() -> u32 {
 }
 
 pub fn hook_now() -> Option<(i64, i32)> {
+    crate::ffiyield::seam_yield();
     NOW_READS.with(|n| n.set(n.get() + 1));
     // Outside a step the clock still must not be the real one: a fixed instant.
     Some(NOW.with(|n| n.get()).unwrap_or((1_700_000_000, 0)))
 }
 
 pub fn hook_iv16(site: &'static str, iv: [u8; 16]) -> [u8; 16] {
+    crate::ffiyield::seam_yield();
     IV.with(|c| match &*c.borrow() {
         Some(o) if site.starts_with(o.site.as_str()) => {
             IV_HITS.with(|h| h.set(h.get() + 1));
